@@ -630,6 +630,16 @@ pub fn wait_until<F: Fn() -> bool>(what: &str, condition: F) -> Result<(), Waite
     Ok(())
 }
 
+/// Bounded polling for a condition a directed scenario hopes to reach (a window); not reaching it is no verdict.
+pub fn poll_until<F: Fn() -> bool>(max: Duration, condition: F) -> bool {
+    let started = Instant::now();
+    while !condition() {
+        if started.elapsed() > max { return false; }
+        thread::sleep(Duration::from_micros(50));
+    }
+    true
+}
+
 pub fn rng_for(seed: u64, a: u64, b: u64) -> Rng { Rng::new(crate::util::mix(crate::util::mix(seed, a), b)) }
 
 // ------------------------------------------------------------------------------------------------ panics
